@@ -1,7 +1,10 @@
 package sim
 
 import (
+	"crypto/sha256"
 	"fmt"
+	"hash"
+	"io"
 	"os"
 	"path/filepath"
 	"sort"
@@ -37,18 +40,28 @@ func genState(root string, m *ModuleSpec, base string) map[string]string {
 	return out
 }
 
+// callSeq renders, per generator, the sequence of GenerateType/GenerateAliasType calls it saw (the
+// interleaving of different generators follows the order they were handed over in and is no output).
 func callSeq(steps []*StepRecord) string {
-	var sb strings.Builder
-	for _, s := range steps {
+	per := map[string]*strings.Builder{}
+	for si, s := range steps {
 		if s.Resp == nil {
 			continue
 		}
 		for _, e := range s.Resp.Events {
 			if e.Kind == "gen" || e.Kind == "alias" {
-				fmt.Fprintf(&sb, "%s %s %s.%s@%s:%d\n", e.Kind, e.Gen, e.Pkg, e.Type, e.File, e.Line)
+				b := per[e.Gen]
+				if b == nil {
+					b = &strings.Builder{}
+					per[e.Gen] = b
+				}
+				fmt.Fprintf(b, "step %d %s %s %s.%s@%s:%d\n", si, e.Kind, e.Gen, e.Pkg, e.Type, e.File, e.Line)
 			}
 		}
-		sb.WriteString("--\n")
+	}
+	var sb strings.Builder
+	for _, g := range sortedKeys(per) {
+		sb.WriteString(per[g].String())
 	}
 	return sb.String()
 }
@@ -97,6 +110,54 @@ type Outcome struct {
 	// Records: the step records of every variant ("setup" included), for
 	// record-then-inject fault enumeration.
 	Records map[string][]*StepRecord
+	// Digest of everything observable in this execution (event traces, tree
+	// snapshots, errors; scheduler choices and results for inflsim): two
+	// executions of one scenario must agree on it (determinism self-test).
+	Digest string
+}
+
+// digestRecords hashes the step records of all variants in a canonical order.
+func digestRecords(records map[string][]*StepRecord) string {
+	h := sha256.New()
+	if d := os.Getenv("VERIF_DIGEST_DEBUG"); d != "" {
+		if fh, err := os.CreateTemp(d, "digest-*.txt"); err == nil {
+			defer fh.Close()
+			return digestTo(io.MultiWriter(h, fh), h, records)
+		}
+	}
+	return digestTo(h, h, records)
+}
+
+func digestTo(h io.Writer, sum hash.Hash, records map[string][]*StepRecord) string {
+	for _, name := range sortedKeys(records) {
+		fmt.Fprintf(h, "variant %s\n", name)
+		for _, st := range records[name] {
+			fmt.Fprintf(h, "op %s killed=%v\n", st.Op.Kind, st.Killed)
+			if st.Resp != nil {
+				fmt.Fprintf(h, "load=%q exec=%q panic=%v\n", st.Resp.LoadErr, st.Resp.ExecErr, st.Resp.Panic != "")
+				var load []string
+				for _, e := range st.Resp.Events {
+					line := fmt.Sprintf("%s|%s|%s|%s|%s|%s|%d|%d|%s|%d", e.Kind, e.Gen, e.Pkg, e.Type, e.Scope, e.Path, e.N, e.Off, e.Fault, e.Inst)
+					if e.Exec < 0 {
+						load = append(load, line) // go/packages reads files from several goroutines: a multiset
+					} else {
+						fmt.Fprintf(h, "x %d %s\n", e.Exec, line)
+					}
+				}
+				sort.Strings(load)
+				for _, l := range load {
+					fmt.Fprintf(h, "l %s\n", l)
+				}
+				for _, k := range sortedKeys(st.Resp.Sum) {
+					fmt.Fprintf(h, "sum %s %s\n", k, st.Resp.Sum[k])
+				}
+			}
+			for _, k := range sortedKeys(st.Post) {
+				fmt.Fprintf(h, "f %s %s\n", k, st.Post[k])
+			}
+		}
+	}
+	return fmt.Sprintf("%x", sum.Sum(nil)[:12])
 }
 
 // ExecuteScenario runs a materialised scenario from scratch. It is the single
@@ -105,8 +166,9 @@ func ExecuteScenario(env *Env, sc *Scenario) (out *Outcome, err error) {
 	out = &Outcome{Records: map[string][]*StepRecord{}}
 	switch sc.Kind {
 	case "infl":
-		vs, err := executeInfl(env, sc)
+		vs, dig, err := executeInfl(env, sc)
 		out.Violations = vs
+		out.Digest = dig
 		return out, err
 	}
 	if sc.ExternalRoot != "" {
@@ -169,6 +231,7 @@ func ExecuteScenario(env *Env, sc *Scenario) (out *Outcome, err error) {
 		results = append(results, result{genState(vroot, sc.Module, sc.Base), callSeq(x.Steps), x})
 	}
 
+	out.Digest = digestRecords(out.Records)
 	switch sc.Kind {
 	case "compare-bytes":
 		// C04 D1-D3, D5: every variant ends in the same bytes and saw the same calls
@@ -286,7 +349,7 @@ func executeUniverse(env *Env, sc *Scenario, mroot string) ([]Violation, error) 
 			return nil, err
 		}
 		run := v.Ops[0].Run
-		resp, err := w.Do(&proto.RunReq{Root: mroot, Args: run.Args, Sched: run.Sched, Universe: true, UniAll: sc.ExternalRoot != "" || sc.UniAll, NoEvents: true}, 4*env.Timeout)
+		resp, err := w.Do(&proto.RunReq{Root: mroot, Args: run.Args, Sched: run.Sched, Universe: true, UniAll: sc.ExternalRoot != "" || sc.UniAll, UniMethodsFirst: strings.Contains(v.Name, "methods-first"), NoEvents: true}, 4*env.Timeout)
 		x.Close()
 		if err != nil {
 			return nil, infra("universe: %v", err)
